@@ -21,19 +21,19 @@ LIVE = b"live-data"
     + [{"flavour": fl, "kind": k, "d": 2, "one": True, "_pre": "m1 == 0 and m2 == 0"} for fl in ("sync", "async") for k in ("101", "connect")],
     thorough=[{"flavour": fl, "kind": k, "d": d, "one": o} for fl in ("sync", "async") for k in ("101", "connect")
               for d in range(0, 7) for o in (False, True)],
-    example=dict(cut=2, m0=1, m1=2, m2=0, st=1, drain=1),
-    require=("trailing-captured", "data-after-head-read", "live-data-read", "body-drained-first"),
+    example=dict(cut=2, m0=1, m1=2, m2=0, st=1, drain=1, reuse=1),
+    require=("trailing-captured", "data-after-head-read", "live-data-read", "body-drained-first", "switched-on-a-reused-connection"),
     timeout={"quick": 200, "thorough": 900},
-    symbolic="cut: where (relative to the end of the head) the server's bytes are split into reads; m0..m2: max_bytes of the caller's first three reads, each from {1, 2, 64}; one-byte-per-read mode; st: the 2xx status of the CONNECT reply from {200, 201, 204, 299}; drain: whether the caller reads the (empty) response body to its end before it uses the network stream",
+    symbolic="cut: where (relative to the end of the head) the server's bytes are split into reads; m0..m2: max_bytes of the caller's first three reads, each from {1, 2, 64}; one-byte-per-read mode; st: the 2xx status of the CONNECT reply from {200, 201, 204, 299}; drain: whether the caller reads the (empty) response body to its end before it uses the network stream; reuse: whether the switching request re-uses a kept-alive connection and the stream is then held beyond the old keep-alive deadline while the pool serves another request",
     bounds="post-head data of d bytes (shard, 0..6), one cut in [head_end-1, head_end+d] or one byte per read, three sized reads then large reads, 101 and CONNECT with four 2xx statuses, body drained first or not, sync and async",
     outside="max_bytes values outside {1,2,64} (covered for every value by the kernel obligation); more than one cut inside the post-head data",
     stubs=("simulated backend and HTTP/1.1 server model; h11 native",),
 )
-def handover(cut: int, m0: int, m1: int, m2: int, st: int, drain: int) -> None:
+def handover(cut: int, m0: int, m1: int, m2: int, st: int, drain: int, reuse: int) -> None:
     """
     pre: 0 <= cut <= 8
     pre: 0 <= m0 <= 2 and 0 <= m1 <= 2 and 0 <= m2 <= 2
-    pre: 0 <= st <= 3 and 0 <= drain <= 1
+    pre: 0 <= st <= 3 and 0 <= drain <= 1 and 0 <= reuse <= 1
     post: _
     """
     d = shard("d", 3)
@@ -41,14 +41,17 @@ def handover(cut: int, m0: int, m1: int, m2: int, st: int, drain: int) -> None:
     ms = [ladder(m, 0, 2) for m in (m0, m1, m2)]
     s_i = ladder(st, 0, 3 if shard("kind", "101") == "connect" else 0)
     dr = ladder(drain, 0, 1)
-    with concrete(c, s_i, dr, *ms):
-        _handover(c, ms, CONNECT_STATUS[s_i], bool(dr))
+    ru = ladder(reuse, 0, 1)
+    if ru and (ms[1] or ms[2] or dr):
+        return  # the reuse dimension is explored with the plainest read pattern only
+    with concrete(c, s_i, dr, ru, *ms):
+        _handover(c, ms, CONNECT_STATUS[s_i], bool(dr), bool(ru))
 
 
 CONNECT_STATUS = ((200, b"OK"), (201, b"Created"), (204, b"No Content"), (299, b"Tunnel"))
 
 
-def _handover(c: int, ms: list[int], cstatus: tuple[int, bytes], drain: bool) -> None:
+def _handover(c: int, ms: list[int], cstatus: tuple[int, bytes], drain: bool, reuse: bool = False) -> None:
     is_async = shard("flavour", "sync") == "async"
     kind = shard("kind", "101")
     d = shard("d", 3)
@@ -75,9 +78,21 @@ def _handover(c: int, ms: list[int], cstatus: tuple[int, bytes], drain: bool) ->
         cuts: typing.Any = "one"
     else:
         cuts = [head_len - 1 + c]  # cut position relative to the end of the head
-    net = Net(lambda net, sock: H1Server(respond=responder), cuts=cuts)
-    pool = scen.make_pool(is_async, net, max_connections=2)
+    net = Net(lambda net, sock: H1Server(respond=responder), cuts=None if reuse else cuts)
+    pool = scen.make_pool(is_async, net, max_connections=3, keepalive_expiry=5)
     api = scen.Api(is_async)
+    if reuse:
+        # the switching request re-uses a kept-alive connection whose keep-alive deadline was armed before
+        w = api.request(pool, "GET", "http://example.com/first")
+        if not P.check(w.ok and len(net.socks) == 1, "warm-up-ok", lambda: f"warm-up: {w.kind()}"):
+            return
+        vrt.RT.clock = vrt.RT.clock + 2
+        consumed0 = net.socks[0].consumed
+        if not one:
+            net.cuts = [consumed0 + x for x in cuts]
+        else:
+            net.cuts = "one"
+        P.cover("switched-on-a-reused-connection")
     if kind == "connect":
         o = api.open(pool, "CONNECT", httpcore.URL(scheme=b"http", host=b"example.com", port=80, target=b"target.test:443"),
                      headers=[(b"Host", b"target.test:443")])
@@ -88,6 +103,14 @@ def _handover(c: int, ms: list[int], cstatus: tuple[int, bytes], drain: bool) ->
     resp = o.value
     P.check(resp.status == (cstatus[0] if kind == "connect" else 101), "status", "wrong status")
     sock = net.socks[0]
+    if reuse:
+        P.check(len(net.socks) == 1, "idle-connection-reused-for-the-switching-request", "not reused")
+        head_len += consumed0
+        # the caller holds the handed-over stream beyond the old keep-alive deadline while the pool serves others
+        vrt.RT.clock = vrt.RT.clock + 10
+        other = api.request(pool, "GET", "http://elsewhere.test/other")
+        P.check(other.ok, "other-request-ok", lambda: f"other: {other.kind()}")
+        P.check(sock.open, "handed-over-connection-is-not-closed-under-the-caller", "pool closed the handed-over connection")
     if drain:
         # a caller that reads the (necessarily empty) body before it turns to the network stream
         b = api.read(resp)
@@ -142,4 +165,49 @@ def _handover(c: int, ms: list[int], cstatus: tuple[int, bytes], drain: bool) ->
     P.check(not sock.open, "switched-connection-closed", "upgraded connection left open after response close")
     o2 = api.request(pool, "GET", "http://example.com/next")
     P.check(o2.ok and o2.value.content == b"second", "next-request-served", lambda: f"next: {o2.kind()}")
-    P.check(len(net.socks) == 2, "next-request-uses-new-connection", "upgraded connection was reused")
+    P.check(len(net.socks) == (3 if reuse else 2), "next-request-uses-new-connection", "upgraded connection was reused")
+
+
+REPLY_HEADERS: tuple[list[tuple[bytes, bytes]], ...] = (
+    [],
+    [(b"Content-Length", b"0")],
+    [(b"Content-Length", b"5")],   # legal: a 2xx reply to CONNECT has no body, the header is to be ignored (RFC 9110 9.3.6)
+    [(b"Content-Length", b"64"), (b"Via", b"1.1 proxy")],
+    [(b"Transfer-Encoding", b"chunked")],
+)
+
+
+@harness(
+    "C17", "tunnel_reply",
+    quick=[{"flavour": fl, "ct": ct} for fl in ("sync", "async") for ct in ("tunnel",)],
+    example=dict(rh=2, st=1, h2=False),
+    require=("tunnelled",),
+    timeout={"quick": 200, "thorough": 400},
+    symbolic="header list of the proxy's successful CONNECT reply (none / Content-Length: 0 / 5 / 64 / Transfer-Encoding: chunked), its 2xx status (200, 201, 204, 299), whether HTTP/2 is then negotiated inside the tunnel (the origin then speaks first)",
+    bounds="one https request through an http:// proxy; everything after the reply head belongs to the tunnel",
+    outside="proxy replies with trailing bytes in the same segment as the head (C17.handover covers that for a caller's own CONNECT)",
+    stubs=("ProxyServer model hands the stream to the origin model after its 2xx reply",),
+)
+def tunnel_reply(rh: int, st: int, h2: bool) -> None:
+    """
+    pre: 0 <= rh <= 4 and 0 <= st <= 3
+    post: _
+    """
+    hs = list(pick(rh, REPLY_HEADERS))
+    status, reason = CONNECT_STATUS[ladder(st, 0, 3)]
+    use_h2 = bool(h2)
+    with concrete(status, use_h2):
+        from .common import Setup
+
+        is_async = shard("flavour", "sync") == "async"
+        su = Setup("tunnel", is_async, connect_reply=lambda req: Resp(status=status, reason=reason, headers=hs, framing="none"),
+                   **({"http2": True} if use_h2 else {}))
+        o = su.api.request(su.pool, "POST", su.url("through"), content=b"payload",
+                           extensions={"timeout": {"pool": 0, "read": 5, "write": 5, "connect": 5}})
+        P.note(reply_headers=hs, status=status, outcome=o.kind())
+        P.cover("tunnelled")
+        # none of the tunnel's bytes is taken for a "body" of the CONNECT reply: the exchange inside the tunnel is intact
+        P.check(o.ok and o.value.status == 200 and o.value.content.endswith(b"/through"), "bytes-after-the-reply-head-all-belong-to-the-tunnel",
+                lambda: f"tunnel-reply:{status}:{hs[:1]}:{o.kind()}")
+        o2 = su.api.request(su.pool, "GET", su.url("again"), extensions={"timeout": {"pool": 0, "read": 5}})
+        P.check(o2.ok and len(su.net.socks) == 1, "tunnel-stays-usable", lambda: f"tunnel-reply:{status}:second:{o2.kind()}")
